@@ -80,7 +80,7 @@ fn check_inv(port: &RPort<'_>) {
 }
 
 // @harness c14_pdelay_resp
-// @props C14 C03 C17
+// @props C14:quick C03:thorough C17:thorough
 // @tier quick
 // @variant lists2
 // @timeout 1500
@@ -159,7 +159,7 @@ fn c14_pdelay_resp() {
 }
 
 // @harness c14_pdelay_resp_follow_up
-// @props C14 C03:thorough C17:thorough
+// @props C14:quick C03:thorough C17:thorough
 // @tier quick
 // @variant lists2
 // @timeout 1500
@@ -231,7 +231,7 @@ fn c14_pdelay_resp_follow_up() {
 }
 
 // @harness c14_pdelay_timestamp
-// @props C14 C03:thorough C17:thorough
+// @props C14:quick C03:quick C17:quick
 // @tier quick
 // @variant lists2
 // @timeout 1500
